@@ -103,12 +103,27 @@ func c02Make(cs *h.Case) (*c02Case, bool) {
 	return &c02Case{idl: sc.IDL(), desc: desc, root: root, model: v, doc: doc, opts: o, want: tref.Encode(v), kind: "doc"}, true
 }
 
+// newJ2T returns a converter configured with o; in a third of the cases it is first created with an unrelated
+// random option set and then reconfigured through SetOptions (the options of the second call alone must count).
+func newJ2T(cs *h.Case, o conv.Options) j2t.BinaryConv {
+	if !cs.R.Chance(33) {
+		return j2t.NewBinaryConv(o)
+	}
+	x := cs.R.Intn(1 << 9)
+	cv := j2t.NewBinaryConv(conv.Options{String2Int64: x&1 != 0, NoBase64Binary: x&2 != 0, DisallowUnknownField: x&4 != 0,
+		EnableValueMapping: x&8 != 0, WriteDefaultField: x&16 != 0, WriteRequireField: x&32 != 0, WriteOptionalField: x&64 != 0,
+		EnableHttpMapping: x&128 != 0, ReadHttpValueFallback: x&256 != 0})
+	cv.SetOptions(o)
+	cs.Cover("converter_reconfigured_by_SetOptions")
+	return cv
+}
+
 // c02Run executes the case and compares. Returns the produced bytes / error class for differential use.
 func c02Run(cs *h.Case, c *c02Case) (string, bool) {
 	cs.Info("idl", c.idl)
 	cs.Info("doc", c.doc)
 	cs.Info("opts", fmt.Sprintf("%+v", c.opts))
-	cv := j2t.NewBinaryConv(c.opts)
+	cv := newJ2T(cs, c.opts)
 	tr := h.TrapCopy([]byte(c.doc), cs.R.Bool(), true)
 	defer tr.Free()
 	out, err := cv.Do(context.Background(), c.desc, tr.B)
